@@ -504,6 +504,46 @@ theorem pick_false_mergeBlocks_prefix : ∀ (p : List Bool) (blocks : List (List
       cases blocks <;> rfl
     exact ⟨k + 1, by simp [this, pick, hk]⟩
 
+/-- exactly `consumedB` unselected values get through -/
+theorem pick_false_mergeBlocks_cut : ∀ (p : List Bool) (blocks : List (List α)) (B : List α) (failed : Bool),
+    pick false p (mergeBlocks failed p blocks B) =
+      (B.take (consumedB failed p blocks.length)).map (fun b => [b])
+  | [], blocks, B, failed => by simp [pick, consumedB]
+  | true :: p, [], B, failed => by simp [mergeBlocks, pick, consumedB]
+  | true :: p, blk :: as, B, failed => by
+    by_cases hstop : (failed && as.isEmpty) = true
+    · have h2 : (failed && as.length == 0) = true := by
+        simp only [Bool.and_eq_true, List.isEmpty_iff] at hstop
+        simp [hstop.1, hstop.2]
+      simp [mergeBlocks, hstop, pick, consumedB, h2]
+    · have ih := pick_false_mergeBlocks_cut p as B failed
+      have h2 : (failed && as.length == 0) = false := by
+        simp only [Bool.not_eq_true, Bool.and_eq_false_iff] at hstop
+        rcases hstop with h | h
+        · simp [h]
+        · have : as ≠ [] := by intro e; simp [e] at h
+          have : as.length ≠ 0 := by simpa using this
+          simp [this]
+      simp only [Bool.not_eq_true] at hstop
+      simp [mergeBlocks, hstop, pick, consumedB, h2, ih]
+  | false :: p, blocks, [], failed => by cases blocks <;> simp [mergeBlocks, pick]
+  | false :: p, blocks, b :: bs, failed => by
+    have ih := pick_false_mergeBlocks_cut p blocks bs failed
+    have : mergeBlocks failed (false :: p) blocks (b :: bs) = [b] :: mergeBlocks failed p blocks bs := by
+      cases blocks <;> rfl
+    simp [this, pick, consumedB, ih]
+
+/-- without a failure every `false` entry of the pattern counts -/
+theorem consumedB_of_ok : ∀ (p : List Bool) (n : Nat), n = p.count true → consumedB false p n = p.count false
+  | [], _, _ => rfl
+  | true :: p, 0, h => by simp at h
+  | true :: p, n + 1, h => by
+    have := consumedB_of_ok p n (by simpa using h)
+    simp [consumedB, this]
+  | false :: p, n, h => by
+    have := consumedB_of_ok p n (by simpa using h)
+    simp [consumedB, this]
+
 theorem sublist_flatten_mergeBlocks : ∀ (p : List Bool) (blocks : List (List α)) (B : List α),
     p.count false = B.length → blocks.length = p.count true →
     B.Sublist (mergeBlocks false p blocks B).flatten
@@ -597,10 +637,11 @@ theorem toCSV_selected_fresh (cfg : CsvCfg) (s : σ) (v : Item) (h : toCSVSel v 
       simp only [h3, h4, Bool.false_eq_true, if_true, if_false]
       exact allFresh_ite _ _ _ _ (allFresh_mk _ _ _ _) (allFresh_nil _)
   | rows id k upd =>
-    simp only [Data.rowsInfo]
-    split
-    · exact allFresh_nil _
-    · exact allFresh_mk _ _ _ _
+    cases k
+    case notCallable => simp [Data.hasRows, Data.rowsInfo] at h2
+    all_goals
+      simp only [Data.rowsInfo]
+      first | exact allFresh_nil _ | exact allFresh_mk _ _ _ _
   | graph src n =>
     simp only [Data.rowsInfo]
     exact allFresh_mk _ _ _ _
